@@ -143,6 +143,9 @@ theorem setitem_tail_inv {H0 : Heap} {w0 : W} (i : Int) (item : Item)
   | some r1 =>
     obtain ⟨key, w1⟩ := r1
     simp only [hp1] at h
+    by_cases hkc : key.cid.isSome = true
+    · simp [hkc] at h
+    rw [if_neg hkc] at h
     obtain ⟨i1, s1, _, hst1⟩ := pop_inv i0 hp1
     cases hp2 : w1.pop with
     | none => simp [hp2] at h
